@@ -103,6 +103,23 @@ def run_cases_text(d, items, release=False, timeout=900):
                 obs[cid] = obs.get(cid, []) + ['hang %s' % hung[-1].split()[2]]
                 todo = todo[ids.index(cid) + 1:]
                 continue
+        if rc < 0 and len(todo) > 1:
+            # the process was killed by a signal (a non-unwinding panic aborts it; stdout of the cases before it is
+            # lost in the buffer): run the cases of this batch one per process and record the one(s) that abort
+            for cid, text in todo:
+                bf1 = os.path.join(d, 'single_%s.txt' % cid)
+                open(bf1, 'w').write(text)
+                rc1, out1, err1 = qv.run_harness([bf1, d], timeout=timeout, release=release)
+                got1 = hist.parse_output(out1)
+                obs.update(got1)
+                if rc1 < 0:
+                    obs[cid] = obs.get(cid, []) + ['abort %d' % -rc1]
+                elif rc1 == 3:
+                    hung = [l for l in out1.split('\n') if l.startswith('hang ')]
+                    if hung:
+                        obs[cid] = obs.get(cid, []) + ['hang %s' % hung[-1].split()[2]]
+                os.remove(bf1)
+            break
         raise RuntimeError('harness failed rc=%d\n%s\n%s' % (rc, out[-1500:], err[-1500:]))
     return obs
 
@@ -145,6 +162,9 @@ def judge(case, lines, verdicts, spec_map):
     plan = case['plan']
     res = [l for l in lines if l.startswith('res ')]
     opens = [l for l in lines if l.startswith('open ')]
+    aborts = [l for l in lines if l.startswith('abort ')]
+    if aborts:
+        finds.append(('panic', 0, 'the process aborted (signal %s): a panic that cannot unwind (e.g. a failed unsafe precondition check) inside an operation of this history' % aborts[0].split()[1]))
     hangs = [l for l in lines if l.startswith('hang ')]
     if hangs:
         finds.append(('hang', int(hangs[0].split()[-1]), 'operation %s never returns (watchdog)' % hangs[0].split()[-1]))
